@@ -162,8 +162,10 @@ def pop_rejects_when_deleted(prog):
 @rule("C12", "R12.2", "every consumer wait is deletion-safe", floor=2)
 def r12_2(prog, out):
     loops = find_consumer_loops(prog)
-    if len(loops) < 2:
+    if len(loops) < 1:
         raise CheckBroken("expected the unary pull loop and the streaming pull loop, found %d consumer loop(s)" % len(loops))
+    if len(loops) < 2:
+        out.undecided("consumer-loops", "", "only %d consumer loop found (a consumer that pulls and waits without looping is judged by C15 R15.3 / C07 R07.4)" % len(loops))
     pop_body, pop_err = pop_rejects_when_deleted(prog)
     for cl in loops:
         bi = prog.info(cl.body)
